@@ -607,6 +607,70 @@ def check_redefine(ctx, cases):
             break
 
 
+# ------------------------------------------------------------------ (f) wildcard restrictions across an xs:import (two target namespaces)
+XNS_FORMS = ['##other', '##any', 'urn:b', 'urn:d', '##targetNamespace', '##local', 'urn:x', '##targetNamespace urn:x', '##local urn:b']
+XNS_PROBES = [('b:x', 'urn:b'), ('d:x', 'urn:d'), ('x:x', 'urn:x'), ('x', '')]
+
+
+def subject_cross_ns(case):
+    import warnings
+    import xmlschema
+    warnings.simplefilter('ignore')
+    d = os.path.join(str(common.BUILD), 'tmp', 'c14_x_%d' % os.getpid())
+    os.makedirs(d, exist_ok=True)
+    base = ('<xs:schema xmlns:xs="http://www.w3.org/2001/XMLSchema" targetNamespace="urn:b" xmlns:b="urn:b" elementFormDefault="qualified">'
+            '<xs:complexType name="B"><xs:sequence><xs:any namespace="%s" processContents="skip" minOccurs="0" maxOccurs="2"/></xs:sequence>'
+            '<xs:anyAttribute namespace="%s" processContents="skip"/></xs:complexType><xs:element name="r" type="b:B"/></xs:schema>'
+            % (case['bf'], case['bf']))
+    der = ('<xs:schema xmlns:xs="http://www.w3.org/2001/XMLSchema" targetNamespace="urn:d" xmlns:b="urn:b" xmlns:d="urn:d" elementFormDefault="qualified">'
+           '<xs:import namespace="urn:b" schemaLocation="xb.xsd"/><xs:complexType name="D"><xs:complexContent><xs:restriction base="b:B">'
+           '<xs:sequence><xs:any namespace="%s" processContents="skip" minOccurs="0" maxOccurs="2"/></xs:sequence>'
+           '<xs:anyAttribute namespace="%s" processContents="skip"/></xs:restriction></xs:complexContent></xs:complexType>'
+           '<xs:element name="rd" type="d:D"/></xs:schema>' % (case['df'], case['df']))
+    with open(os.path.join(d, 'xb.xsd'), 'w') as f:
+        f.write(base)
+    with open(os.path.join(d, 'xd.xsd'), 'w') as f:
+        f.write(der)
+    out = {}
+    for version, cls in (('1.0', xmlschema.XMLSchema10), ('1.1', xmlschema.XMLSchema11)):
+        try:
+            s = cls(os.path.join(d, 'xd.xsd'))
+        except xmlschema.XMLSchemaException as e:
+            out[version] = {'build': common.exc_class(e)}
+            continue
+        res = []
+        nsd = 'xmlns:b="urn:b" xmlns:d="urn:d" xmlns:x="urn:x"'
+        for name, _ns in XNS_PROBES:
+            for kind in ('child', 'attr'):
+                body = ('<%s/>' % name, '') if kind == 'child' else ('', ' %s="1"' % (name if ':' in name else 'zz'))
+                xd = '<d:rd %s%s>%s</d:rd>' % (nsd, body[1], body[0])
+                xb = '<b:r %s%s>%s</b:r>' % (nsd, body[1], body[0])
+                res.append([name, kind, s.is_valid(xd), s.is_valid(xb)])
+        out[version] = {'build': 'ok', 'probes': res}
+    return out
+
+
+def check_cross_ns(ctx):
+    cases = [{'bf': bf, 'df': df} for bf in XNS_FORMS for df in XNS_FORMS]
+    if ctx.quick():
+        cases = ctx.rng.sample(cases, 40) + [{'bf': '##other', 'df': f} for f in ('##other', 'urn:b', 'urn:d', '##targetNamespace')]
+    impl = common.pool_map(subject_cross_ns, cases, procs=4)
+    for c, o in zip(cases, impl):
+        for version in ('1.0', '1.1'):
+            r = o.get(version, {})
+            ctx.count(('xns', c['bf'], c['df'], version), nontrivial=r.get('build') == 'ok')
+            if 'harness_exception' in o:
+                ctx.violation('subject failed: %s' % o['harness_exception'], {'kind': 'cross-ns', 'case': c}, no_input=True)
+                break
+            ctx.dist('wildcard restriction across an import', 'accepted' if r.get('build') == 'ok' else 'rejected')
+            for name, kind, vd, vb in r.get('probes', []):
+                if vd and not vb:
+                    ctx.violation('a type of urn:d restricting a type of urn:b: wildcard %r restricted to %r is accepted (XSD %s) but the %s %s '
+                                  'is valid for the restricted type and not for the base type' % (c['bf'], c['df'], version,
+                                  'child' if kind == 'child' else 'attribute', name), {'kind': 'cross-ns', 'case': c, 'impl': r})
+                    break
+
+
 def gen(ctx):
     rng = ctx.rng
     q = ctx.quick()
@@ -685,6 +749,7 @@ def run(ctx):
     check_facets(ctx, facets)
     check_redefine(ctx, redefs)
     check_open(ctx, opens)
+    check_cross_ns(ctx)
     ctx.extra['derivations'] = {'content_models': len(models), 'attribute_pairs': len(attrs), 'facet_pairs': len(facets),
                                 'redefinitions': len(redefs), 'open_content_pairs': len(opens)}
     ctx.assumptions = ['completeness (a sound restriction being accepted) is not required by the property and not judged',
@@ -703,5 +768,7 @@ def replay(ctx, case):
         check_facets(ctx, [case['case']])
     elif k == 'open':
         check_open(ctx, [case['case']])
+    elif k == 'cross-ns':
+        check_cross_ns(ctx)
     else:
         check_redefine(ctx, [case['case']])
